@@ -70,9 +70,6 @@ theorem server_only_refused_from_client (v : PVal) (id : Nat) (h : id ∈ [0x00,
 
 /-! ## 2. `parse_from_bytes` -/
 
-theorem mandatory_sub_required : ∀ (r : Role) (id : Nat), id ∈ Spec.mandatory r → id ∈ required r := by
-  intro r; cases r <;> decide
-
 /-- Every entry of an accepted parameter set is legal per the RFC table for the sending role. -/
 theorem parse_sound (sender : Role) (buf : Bytes) (m : PMap) (h : parse sender buf = some m) :
     ∀ e ∈ m, legal sender e.1 e.2 = true :=
@@ -235,13 +232,6 @@ theorem wire_path_no_panic (s0 : Core) (hf : Fresh s0) (blob c : Bytes) :
 
 /-! ## 4. wakers: nobody waits on a READY object -/
 
-theorem pending_not_ready (s : Core) (op : Op) (h : (cstep s op).2 = .pollPending) : (cstep s op).1.ready = false := by
-  unfold cstep at h ⊢
-  split at h
-  · cases h
-  · cases op <;> dsimp only at h ⊢ <;> (repeat' split at h) <;> (try cases h) <;> simp_all [afterAuth]
-    all_goals (repeat' split at h) <;> (try cases h)
-
 /-- After ANY history every task that polled `Pending` has been woken once the object is READY. -/
 theorem no_waiter_left_at_ready (s0 : St) (h0 : s0.core.ready = true → s0.wakers = 0) (ops : List Op) :
     (run s0 ops).core.ready = true → (run s0 ops).wakers = 0 := by
@@ -281,31 +271,6 @@ theorem idle_config_is_min_nonzero (l r : Nat) : idleConfigNegotiate l r = (Spec
 /-- No negotiated value before the peer's parameters are authenticated. -/
 theorem idle_unknown_before_ready (s : St) (h : s.core.ready = false) : s.negotiated = none := by
   simp [St.negotiated, h]
-
-theorem zrtt_fold_none (old new : PMap) (l : List Nat) : l.foldl (zrttStep old new) none = none := by
-  induction l with
-  | nil => rfl
-  | cons _ _ ih => simpa [zrttStep] using ih
-
-theorem zrtt_fold (old new : PMap) (ids : List Nat) (a : Bool) :
-    ids.foldl (zrttStep old new) (some a) = some true ↔
-    a = true ∧ ∀ id ∈ ids, ∃ o n, getVarint old id = some o ∧ getVarint new id = some n ∧ o ≤ n := by
-  induction ids generalizing a with
-  | nil => simp
-  | cons id ids ih =>
-    simp only [List.foldl_cons, List.mem_cons, forall_eq_or_imp]
-    cases ho : getVarint old id with
-    | none => simp [zrttStep, ho, zrtt_fold_none]
-    | some o =>
-      cases hn : getVarint new id with
-      | none => simp [zrttStep, ho, hn, zrtt_fold_none]
-      | some n =>
-        have : zrttStep old new (some a) id = some (a && decide (o ≤ n)) := by simp [zrttStep, ho, hn]
-        rw [this, ih]
-        simp only [Bool.and_eq_true, decide_eq_true_eq, Option.some.injEq, exists_and_left, exists_eq_left']
-        constructor
-        · rintro ⟨⟨ha, hle⟩, hrest⟩; exact ⟨ha, hle, hrest⟩
-        · rintro ⟨ha, hle, hrest⟩; exact ⟨⟨ha, hle⟩, hrest⟩
 
 /-- Remembered server parameters are honoured for 0-RTT iff none of the limits of RFC 9000 §7.4.1 (+ RFC 9221)
 got smaller (`getVarint` = value, or the default when absent). -/
